@@ -32,9 +32,10 @@ Definition kw_ok (c : bytes * bool * bool * bool) : bool :=
   && Bool.eqb (negb (mem w ecma_unconditional_reserved)) lexes_as_ident.
 Definition check_kw := mismatches kw_ok.
 
-(* printer: (minify-whitespace, expression tree, bytes printed by js_printer.Print without the statement terminator) *)
-Definition print_ok (c : bool * expr * bytes) : bool :=
-  let '(mw, e, out) := c in zlist_eqb (print_expr mw e) out.
+(* printer: (minify-whitespace, forbidIn, expression tree, bytes printed by js_printer.Print: an expression
+   statement without its terminator, or with forbidIn the initialiser of a for loop without the loop around it) *)
+Definition print_ok (c : bool * bool * expr * bytes) : bool :=
+  let '(mw, fi, e, out) := c in zlist_eqb (print_expr mw fi e) out.
 Definition check_print := mismatches print_ok.
 
 (* item lists rendered through hand-built trees are covered by check_print;
@@ -45,10 +46,10 @@ Definition tok_eqb (a b : tok) : bool :=
   | TRe b1 f1, TRe b2 f2 => zlist_eqb b1 b2 && zlist_eqb f1 f2
   | _, _ => false
   end.
-Definition relex_ok (c : bool * expr * bytes) : bool :=
-  let '(mw, e, out) := c in
+Definition relex_ok (c : bool * bool * expr * bytes) : bool :=
+  let '(mw, fi, e, out) := c in
   match lex out with
-  | Some ts => list_eqb tok_eqb ts (toks (print_items mw LLowest e))
+  | Some ts => list_eqb tok_eqb ts (toks (print_items mw fi LLowest e))
   | None => false
   end.
 Definition check_relex := mismatches relex_ok.
@@ -68,7 +69,7 @@ Fixpoint expr_eqb (a b : expr) : bool :=
   | ANil, ANil => true
   | _, _ => false
   end.
-Definition reparse_ok (c : bool * expr * bytes) : bool :=
-  let '(_, e, out) := c in
-  match parse_text out with Some e' => expr_eqb e' (norm e) | None => false end.
+Definition reparse_ok (c : bool * bool * expr * bytes) : bool :=
+  let '(_, fi, e, out) := c in
+  match parse_text fi out with Some e' => expr_eqb e' (norm e) | None => false end.
 Definition check_reparse := mismatches reparse_ok.
